@@ -8,6 +8,10 @@
 //        -> F items=<n> bad=<id:count or ->
 //   invoke <n> <P>                                           parallel_invoke with n (2..12) functions
 //        -> I n=<n> bad=<index:count or ->
+//   foreach2 <n> <depth 0..3> <fan 1..3> <iter r|f|i> <P> <seed>   parallel_for_each over n items of a class type that counts its copies
+//        and destructions; every item feeds up to <fan> new items (alternating copy / move add), recursively up to <depth> levels
+//        -> F2 items=<reachable> bad=<id:count or -> dead=<body calls on a destroyed item> live=<copies never destroyed> late=<0|1 copies still
+//           alive when the call returned (they are destroyed by a worker shortly afterwards: finalize releases the wait reference first)>
 #include <oneapi/tbb/blocked_range.h>
 #include <oneapi/tbb/blocked_range2d.h>
 #include <oneapi/tbb/blocked_range3d.h>
@@ -156,6 +160,30 @@ struct InputIt {
     bool operator!=(const InputIt& o) const { return i != o.i; }
 };
 
+// item type for foreach2: counts constructions / destructions, detects use after destruction
+static std::atomic<long> ci_live{0}, ci_dead_use{0};
+struct CItem {
+    unsigned level, index; unsigned magic;
+    CItem(unsigned l, unsigned i) : level(l), index(i), magic(0xA11FEu) { ci_live++; }
+    CItem(const CItem& o) : level(o.level), index(o.index), magic(0xA11FEu) { if (o.magic != 0xA11FEu) ci_dead_use++; ci_live++; }
+    CItem(CItem&& o) : level(o.level), index(o.index), magic(0xA11FEu) { if (o.magic != 0xA11FEu) ci_dead_use++; ci_live++; }
+    ~CItem() { if (magic != 0xA11FEu) ci_dead_use++; magic = 0xDEADu; ci_live--; }
+};
+template <typename Tag> struct CIt {
+    typedef Tag iterator_category; typedef CItem value_type; typedef std::ptrdiff_t difference_type; typedef CItem* pointer; typedef CItem& reference;
+    std::vector<CItem>* v; long k;
+    CItem& operator*() const { return (*v)[size_t(k)]; }
+    CIt& operator++() { ++k; return *this; }
+    CIt operator++(int) { CIt t = *this; ++k; return t; }
+    bool operator==(const CIt& o) const { return k == o.k; }
+    bool operator!=(const CIt& o) const { return k != o.k; }
+};
+static unsigned ci_fanout(unsigned long long seed, unsigned level, unsigned index, unsigned fan) {
+    unsigned long long h = seed * 0x9E3779B97F4A7C15ull + level * 0xD1B54A32D192ED03ull + index * 0x2545F4914F6CDD1Dull;
+    h ^= h >> 29; h *= 0xBF58476D1CE4E5B9ull; h ^= h >> 32;
+    return unsigned(h % (fan + 1));
+}
+
 // watchdog: a loop of a broken tree may never end (or allocate tasks without end)
 static std::atomic<long long> deadline_ms{0};
 static long long now_ms() { return std::chrono::duration_cast<std::chrono::milliseconds>(std::chrono::steady_clock::now().time_since_epoch()).count(); }
@@ -256,6 +284,64 @@ int main(int argc, char** argv) {
             if (outside.load()) bad = "outside";
             else for (size_t i = 0; i < total; ++i) if (cnt[i].load() != 1) { bad = std::to_string(i) + ":" + std::to_string(cnt[i].load()); break; }
             printf("F items=%zu bad=%s\n", total, bad.c_str());
+        } else if (op == "foreach2") {
+            size_t n; unsigned depth, fan; std::string it; int P; ull seed;
+            if (!(in >> n >> depth >> fan >> it >> P >> seed) || P < 1 || n > 5000 || depth > 3 || fan < 1 || fan > 3) { puts("bad-op"); continue; }
+            // flat id of (level, index): offset[level] + index, level l has n*fan^l slots
+            size_t offset[5], width = n, total = 0;
+            for (unsigned l = 0; l <= depth; ++l) { offset[l] = total; total += width; width *= fan; }
+            offset[depth + 1] = total;
+            std::unique_ptr<std::atomic<unsigned>[]> cnt(new std::atomic<unsigned>[total ? total : 1]);
+            for (size_t i = 0; i < total; ++i) cnt[i].store(0);
+            std::atomic<ull> outside{0};
+            auto body = [&](const CItem& x, tbb::feeder<CItem>& fd) {
+                if (x.magic != 0xA11FEu) ci_dead_use++;
+                if (x.level > depth || offset[x.level] + x.index >= offset[x.level + 1]) { outside++; return; }
+                cnt[offset[x.level] + x.index]++;
+                if (x.level < depth) {
+                    unsigned k = ci_fanout(seed, x.level, x.index, fan);
+                    for (unsigned j = 0; j < k; ++j) {
+                        CItem c(x.level + 1, x.index * fan + j);
+                        if (j & 1) fd.add(std::move(c)); else fd.add(c);
+                    }
+                }
+                if (x.magic != 0xA11FEu) ci_dead_use++;
+            };
+            long base = ci_live.load(), after = 0;
+            ci_dead_use = 0;
+            {
+                std::vector<CItem> v; v.reserve(n);
+                for (size_t i = 0; i < n; ++i) v.emplace_back(0u, unsigned(i));
+                tbb::task_arena arena(P);
+                arena.execute([&] {
+                    if (it == "r") tbb::parallel_for_each(v.begin(), v.end(), body);
+                    else if (it == "f") tbb::parallel_for_each(CIt<std::forward_iterator_tag>{&v, 0}, CIt<std::forward_iterator_tag>{&v, long(n)}, body);
+                    else tbb::parallel_for_each(CIt<std::input_iterator_tag>{&v, 0}, CIt<std::input_iterator_tag>{&v, long(n)}, body);
+                });
+                after = ci_live.load() - long(n);
+                // copies may still be destroyed by a worker right after the return: wait for them (only the watchdog bounds this wait,
+                // so that the verdict does not depend on machine load; copies that are never destroyed end as TIMEOUT)
+                while (ci_live.load() != base + long(n)) std::this_thread::yield();
+            }
+            long leaked = ci_live.load() - base;
+            // expected visits: an item is reachable iff its parent is and its child number is below the parent's fan-out
+            std::string bad = "-";
+            size_t reachable = 0;
+            if (outside.load()) bad = "outside";
+            else {
+                std::vector<unsigned char> reach(total ? total : 1, 0);
+                for (size_t i = 0; i < n; ++i) reach[i] = 1;
+                size_t w = n;
+                for (unsigned l = 0; l < depth; ++l) {
+                    for (size_t i = 0; i < w; ++i) if (reach[offset[l] + i]) {
+                        unsigned k = ci_fanout(seed, l, unsigned(i), fan);
+                        for (unsigned j = 0; j < k; ++j) reach[offset[l + 1] + i * fan + j] = 1;
+                    }
+                    w *= fan;
+                }
+                for (size_t i = 0; i < total; ++i) { reachable += reach[i]; if (cnt[i].load() != reach[i]) { if (bad == "-") bad = std::to_string(i) + ":" + std::to_string(cnt[i].load()); } }
+            }
+            printf("F2 items=%zu bad=%s dead=%ld live=%ld late=%d\n", reachable, bad.c_str(), ci_dead_use.load(), leaked, after != base ? 1 : 0);
         } else if (op == "invoke") {
             int n, P;
             if (!(in >> n >> P) || n < 2 || n > 12 || P < 1) { puts("bad-op"); continue; }
